@@ -1035,3 +1035,22 @@ func cpFieldByName(v cpVal, name string) (cpVal, bool) {
 	}
 	return nil, false
 }
+
+// cpStructUnknownExcept builds a struct value whose named fields have the
+// given values and every other field is unknown: the shape for a receiver of
+// which only some fields are fixed by the question asked.
+func cpStructUnknownExcept(t types.Type, fields map[string]cpVal) cpStruct {
+	s := cpStruct{T: t, F: map[int]*cpCell{}}
+	st, ok := t.Underlying().(*types.Struct)
+	if !ok {
+		return s
+	}
+	for i := 0; i < st.NumFields(); i++ {
+		if v, ok := fields[st.Field(i).Name()]; ok {
+			s.F[i] = &cpCell{V: v, T: st.Field(i).Type()}
+		} else {
+			s.F[i] = &cpCell{V: cpUnk{ID: "recv." + st.Field(i).Name()}, T: st.Field(i).Type()}
+		}
+	}
+	return s
+}
